@@ -77,7 +77,9 @@ def showOut : Out Unit → String
 
 /-! e2e: source specs, a concrete (collision-improbable) tree hash, three archive runs -/
 
-def mix (a b : Nat) : Nat := (a * 1000003 + b + 12345) % 2305843009213693951
+/-- non-linear 64-bit mixing (splitmix64 finaliser): a linear mix lets a node moved between directory levels cancel out -/
+def mix (a b : Nat) : Nat :=
+  (splitmix ((splitmix (a.toUInt64 * 0x9E3779B97F4A7C15 + 0x1234567)).1 ^^^ (b.toUInt64 * 0xC2B2AE3D27D4EB4F + 1))).1.toNat
 
 def hBytes (bs : List UInt8) : Nat := bs.foldl (fun a c => mix a (c.toNat + 1)) 7
 
